@@ -29,6 +29,14 @@ PLAN = {
     "nurimisaki": {"quick": [(1, 3, 0), (3, 1, 0), (2, 3, 120), (3, 3, 80)], "thorough": [(1, 3, 0), (3, 1, 0), (2, 2, 0), (2, 3, 0), (3, 2, 0), (3, 3, 4000), (3, 4, 1000)]},
     "putteria": {"quick": [(1, 3, 0), (2, 2, 0), (2, 3, 0), (3, 3, 150)], "thorough": [(1, 3, 0), (3, 1, 0), (2, 2, 0), (2, 3, 0), (3, 2, 0), (3, 3, 0)]},
     "aquarium": {"quick": [(1, 3, 0), (3, 1, 0), (2, 3, 200), (3, 2, 100), (3, 3, 100)], "thorough": [(1, 3, 0), (3, 1, 0), (2, 2, 0), (2, 3, 0), (3, 2, 0), (3, 3, 3000)]},
+    "sudoku": {"quick": [(1, 1, 0), (2, 2, 150)], "thorough": [(1, 1, 0), (2, 2, 6000)]},
+    "building": {"quick": [(1, 1, 0), (2, 2, 0), (3, 3, 150), (4, 4, 60)], "thorough": [(1, 1, 0), (2, 2, 0), (3, 3, 6000), (4, 4, 3000)]},
+    "doppelblock": {"quick": [(3, 3, 0), (4, 4, 150)], "thorough": [(3, 3, 0), (4, 4, 6000), (5, 5, 600)]},
+    "fillomino": {"quick": [(1, 3, 0), (3, 1, 0), (2, 3, 150), (3, 3, 80)], "thorough": [(1, 1, 0), (1, 3, 0), (3, 1, 0), (2, 2, 0), (2, 3, 6000), (3, 2, 3000), (3, 3, 4000)]},
+    "view": {"quick": [(1, 3, 0), (3, 1, 0), (2, 3, 150), (3, 3, 80)], "thorough": [(1, 3, 0), (3, 1, 0), (2, 2, 0), (2, 3, 0), (3, 2, 0), (3, 3, 6000)]},
+    "geradeweg": {"quick": [(2, 2, 0), (2, 3, 150), (3, 3, 100)], "thorough": [(2, 2, 0), (2, 3, 0), (3, 2, 0), (3, 3, 6000), (3, 4, 1500)]},
+    "castle_wall": {"quick": [(2, 2, 200), (2, 3, 150), (3, 3, 100)], "thorough": [(2, 2, 0), (2, 3, 8000), (3, 2, 4000), (3, 3, 4000)]},
+    "compass": {"quick": [(1, 3, 150), (2, 2, 150), (2, 3, 120)], "thorough": [(1, 3, 0), (3, 1, 4000), (2, 2, 6000), (2, 3, 6000), (3, 2, 3000), (3, 3, 1500)]},
     "gokigen": {"quick": [(1, 1, 0), (1, 2, 150), (2, 2, 100), (2, 3, 60)], "thorough": [(1, 1, 0), (1, 2, 6000), (2, 1, 3000), (2, 2, 4000), (2, 3, 2000), (3, 3, 600)]},
 }
 
